@@ -895,7 +895,7 @@ def main(tier, seed):
     quick = tier == "quick"
     rng = random.Random(seed * 7919 + 17)
     n_pool = 84 if quick else 600
-    n_hist = 150 if quick else 6000
+    n_hist = 100 if quick else 6000
     deadline = t0 + (200 if quick else 45 * 60)
     # ---- coverage-guided choice of base cfgs: draw many candidates, run each once under a
     # cheap line-coverage probe, and keep greedily those that reach repository lines no
